@@ -279,3 +279,74 @@ Proof.
   - constructor; [|constructor]. right. discriminate.
   - discriminate.
 Qed.
+
+(* ---- dicts: reads follow updates, and a copy is a different dict
+        (Request.copy -> environ.copy(), HeaderDict.copy) ---- *)
+
+Lemma d_get_set_same l k v : d_get (d_set l k v) k = Some v.
+Proof.
+  induction l as [|[k' v'] l IH]; simpl.
+  - rewrite Nat.eqb_refl. reflexivity.
+  - destruct (Nat.eqb_spec k k') as [->|Hn]; simpl.
+    + rewrite Nat.eqb_refl. reflexivity.
+    + destruct (Nat.eqb_spec k k'); [contradiction|]. exact IH.
+Qed.
+
+Lemma d_get_set_other l k v k' : k' <> k -> d_get (d_set l k v) k' = d_get l k'.
+Proof.
+  intros Hn. induction l as [|[k0 v0] l IH]; simpl.
+  - destruct (Nat.eqb_spec k' k); [contradiction|reflexivity].
+  - destruct (Nat.eqb_spec k k0) as [->|Hk]; simpl.
+    + destruct (Nat.eqb_spec k' k0); [contradiction|reflexivity].
+    + destruct (Nat.eqb_spec k' k0); [reflexivity|exact IH].
+Qed.
+
+Lemma nth_error_list_upd_other {A} (l : list A) n m x : m <> n -> nth_error (list_upd l n x) m = nth_error l m.
+Proof.
+  revert n m. induction l as [|y l IH]; intros [|n] [|m] Hn; simpl; try reflexivity; try congruence.
+  apply IH. congruence.
+Qed.
+
+Lemma dict_reads_follow_updates_lemma :
+  forall t w d k v w1 r,
+    step t (ODSet d k v) w = (w1, r) -> r = RUnit ->
+    snd (step t (ODGet d k) w1) = RVal v
+    /\ (forall k', k' <> k -> snd (step t (ODGet d k') w1) = snd (step t (ODGet d k') w))
+    /\ (forall d', d' <> d -> nth_error (heap w1 t) d' = nth_error (heap w t) d').
+Proof.
+  intros t w d k v w1 r Hs Hr. unfold step, exec in *.
+  destruct (nth_error (heap w t) d) as [l|] eqn:Hd; [|injection Hs as <- <-; discriminate].
+  injection Hs as <- _. simpl. rewrite Nat.eqb_refl.
+  assert (Hnew : nth_error (list_upd (heap w t) d (d_set l k v)) d = Some (d_set l k v)).
+  { clear -Hd. revert d Hd. induction (heap w t) as [|y h IH]; intros [|d] Hd; simpl in *; try discriminate.
+    - reflexivity.
+    - apply IH. exact Hd. }
+  split; [|split].
+  - rewrite Hnew, d_get_set_same. reflexivity.
+  - intros k' Hk. rewrite Hnew, d_get_set_other by assumption. destruct (d_get l k'); reflexivity.
+  - intros d' Hd'. apply nth_error_list_upd_other. assumption.
+Qed.
+
+Lemma copy_is_a_different_dict_lemma :
+  forall t w d w1 d2,
+    step t (ODCopy d) w = (w1, RVal (VRef d2)) ->
+    d2 <> d
+    /\ nth_error (heap w1 t) d2 = nth_error (heap w t) d
+    /\ nth_error (heap w1 t) d = nth_error (heap w t) d
+    /\ forall k v w2 r, step t (ODSet d2 k v) w1 = (w2, r) ->
+         nth_error (heap w2 t) d = nth_error (heap w t) d.
+Proof.
+  intros t w d w1 d2 Hs. unfold step, exec in Hs.
+  destruct (nth_error (heap w t) d) as [l|] eqn:Hd; [|discriminate].
+  injection Hs as <- <-. simpl. rewrite Nat.eqb_refl.
+  assert (Hlt : d < length (heap w t)) by (apply nth_error_Some; congruence).
+  assert (Hne : length (heap w t) <> d) by lia.
+  assert (H2 : nth_error (heap w t ++ [l]) (length (heap w t)) = Some l).
+  { rewrite nth_error_app2 by lia. rewrite Nat.sub_diag. reflexivity. }
+  assert (H1 : nth_error (heap w t ++ [l]) d = Some l).
+  { rewrite nth_error_app1 by assumption. exact Hd. }
+  split; [exact Hne|]. split; [exact H2|]. split; [exact H1|].
+  intros k v w2 r Hs2. unfold step, exec in Hs2. simpl in Hs2. rewrite ?Nat.eqb_refl in Hs2.
+  rewrite H2 in Hs2. injection Hs2 as <- _. simpl. rewrite ?Nat.eqb_refl.
+  rewrite nth_error_list_upd_other by lia. exact H1.
+Qed.
